@@ -98,9 +98,14 @@ def build_guestlibs():
     for i in (1, 2):
         o = os.path.join(d, "libguest%d.so" % i)
         if not os.path.exists(o) or os.path.getmtime(o) < os.path.getmtime(src):
-            p = vp.run(["gcc", "-shared", "-fPIC", "-O1", "-fexceptions", "-DLIBID=%d" % i, src, "-o", o])
+            # built under a private name and renamed: variants run in threads (and checks in
+            # separate processes) and must never dlopen a half-written library
+            import threading
+            tmp = "%s.tmp.%d.%d" % (o, os.getpid(), threading.get_ident())
+            p = vp.run(["gcc", "-shared", "-fPIC", "-O1", "-fexceptions", "-DLIBID=%d" % i, src, "-o", tmp])
             if p.returncode != 0:
                 raise vp.Broken("guestlib build failed: " + p.stderr[-500:])
+            os.replace(tmp, o)
         outs.append(o)
     return outs
 
